@@ -107,6 +107,15 @@ func (g *pGen) strExpr(d int) []string {
 		return append(append(append(g.strExpr(d-1), "+", "("), g.intExpr(d-1)...), ")")
 	case 2:
 		g.features["helper-call"] = true
+		switch g.r.Intn(6) {
+		case 0:
+			// helpers called without their options argument
+			g.features["helper-with-omitted-options"] = true
+			return append(append([]string{"truncate", "("}, g.strExpr(d-1)...), ")")
+		case 1:
+			g.features["pathFor"] = true
+			return []string{"pathFor", "(", fmt.Sprintf("pf%d", g.r.Intn(8)), ")"}
+		}
 		return append(append([]string{pick(g.r, []string{"upcase", "capitalize", "up"}), "("}, g.strExpr(d-1)...), ")")
 	default:
 		g.features["method-call"] = true
@@ -301,6 +310,12 @@ func (g *pGen) stmt(depth int) []pUnit {
 	case k == 13 && !g.noFail && g.r.Chance(1, 3):
 		g.features["failing-statement"] = true
 		return []pUnit{tag("<%=", true, pick(g.r, []string{"nosuchvar", "1 / 0", "xs[9]", "tt.Nope"}))}
+	case k == 13 && !g.noAssign && g.r.Bool():
+		// an array literal that is then updated in place
+		g.features["array-literal-updated-in-place"] = true
+		v := g.fresh("ar")
+		return []pUnit{tag("<%", true, "let", v, "=", "[", "1", ",", "2", ",", "3", "]"),
+			tag("<%", true, v, "[", "0", "]", "=", v, "[", "0", "]", "+", "10"), tag("<%=", true, v, "[", "0", "]"), tag("<%=", true, v, "[", "1", "]")}
 	case k == 13 && !g.noAssign:
 		// an empty hash literal that is then written to
 		g.features["empty-hash-then-write"] = true
@@ -378,7 +393,20 @@ func progCtxV(env *progEnv, variant int) *plush.Context {
 	return ctx
 }
 
+// eight distinct struct types for pathFor (type-derived names)
+type pfAlpha struct{ ID int }
+type pfBravo struct{ ID int }
+type pfCharlie struct{ ID int }
+type pfDelta struct{ Slug string }
+type pfEcho struct{ ID int }
+type pfFoxtrot struct{ ID int }
+type pfGolf struct{ Slug string }
+type pfHotel struct{ ID int }
+
 func progCtxCommon(ctx *plush.Context, env *progEnv) {
+	for i, v := range []interface{}{pfAlpha{1}, &pfBravo{2}, pfCharlie{3}, pfDelta{"d"}, &pfEcho{5}, []pfFoxtrot{{6}}, pfGolf{"g"}, pfHotel{8}} {
+		ctx.Set(fmt.Sprintf("pf%d", i), v)
+	}
 	ctx.Set("nums", []int{5, 6, 7})
 	ctx.Set("mp", map[string]int{"a": 1, "b": 2, "c": 3})
 	ctx.Set("hh", map[string]interface{}{"k": "hv"})
